@@ -118,6 +118,9 @@ func TestC37(t *testing.T) {
 	r.Rule("per run: a forked tree of 20-36 blocks and the protocol-following votes of 4 validators are split over 2 block feeders (competing branches), 3 vote senders, 2 transaction submitters and 4 readers running concurrently against one real node, GOMAXPROCS in {2,4,16}, seeded Gosched/sleeps at five yield points inside chain, casper and txpool; distinct = interleaving signature (hash of the order of yield-point events)")
 	r.Assume("the race detector only sees the interleavings that occurred; the stall detector needs 30 s without any completed operation and two identical dumps of the in-flight operations 10 s apart")
 
+	r.Cases("waiter-storm", r.N(10, 200), func(c *ev.Case) { waiterStorm(c, net, g, base) })
+	r.Floor("block_waiters_fired", 5000)
+
 	r.Cases("runs", r.N(60, 1200), func(c *ev.Case) {
 		rng := c.Rand
 		procs := []int{2, 4, 16}[c.Index%3]
@@ -220,6 +223,24 @@ func TestC37(t *testing.T) {
 		var txs []*types.Tx
 		for i := 20; i < 30 && i < len(g.Funds); i++ {
 			txs = append(txs, chainkit.PayTx([]*chainkit.UTXO{g.Funds[i]}, chainkit.TrueProg, 2, chainkit.DefaultFee))
+		}
+		// two followers wait for one height after the other through Chain.BlockWaiter, the way the wallet
+		// updater, the contract tracer and the websocket notifier follow the chain
+		var reached [2]int64
+		waitersStop := make(chan struct{})
+		defer close(waitersStop)
+		for w := 0; w < 2; w++ {
+			w := w
+			go func() {
+				for h := uint64(1); ; h++ {
+					select {
+					case <-nd.Chain.BlockWaiter(h):
+						atomic.StoreInt64(&reached[w], int64(h))
+					case <-waitersStop:
+						return
+					}
+				}
+			}()
 		}
 		var wg sync.WaitGroup
 		stop := make(chan struct{})
@@ -400,6 +421,23 @@ func TestC37(t *testing.T) {
 			c.Inconclusive("engine did not settle")
 			return
 		}
+		// every follower must have been woken for every height up to the best height (a wake-up that is
+		// lost leaves it waiting although the chain is there; 20 s is a watchdog, followers need microseconds)
+		if bh := int64(nd.Chain.BestBlockHeight()); bh > 0 {
+			okW := false
+			for i := 0; i < 20000 && !okW; i++ {
+				okW = atomic.LoadInt64(&reached[0]) >= bh && atomic.LoadInt64(&reached[1]) >= bh
+				if !okW {
+					time.Sleep(time.Millisecond)
+				}
+			}
+			c.Count("block_waiter_heights_followed", bh)
+			if !okW {
+				c.Violation("stall:BlockWaiter:not-fired-although-best-height-reached", "a goroutine waiting in Chain.BlockWaiter(h) was not woken although the best block height is >= h and every operation has returned",
+					map[string]interface{}{"best_height": bh, "follower_0_reached": atomic.LoadInt64(&reached[0]), "follower_1_reached": atomic.LoadInt64(&reached[1]), "shape": tr.Shape(), "gomaxprocs": procs})
+				return
+			}
+		}
 		ymu.Lock()
 		sig := d.sig
 		ymu.Unlock()
@@ -481,6 +519,7 @@ func TestC37(t *testing.T) {
 	r.Floor("ops_completed:vote", 100)
 	r.Floor("ops_completed:tx", 20)
 	r.Floor("ops_completed:read", 500)
+	r.Floor("block_waiter_heights_followed", 300)
 	r.Floor("yield:casper.AuthVerification:before-rollback-request", 3)
 	r.Floor("yield:chain.processBlock:saved-before-reorganize", 100)
 }
